@@ -1305,8 +1305,8 @@ char* string_print_formatted (char *format_str, int argc, svalue_t * argv) {
               else if (finfo & INFO_T_INT)
                 {		/* one of the integer
                                  * types */
-                  char cheat[8];
-                  char temp[100];
+                  char cheat[32];	/* "%" flag "." <precision> type */
+                  char temp[512];	/* "%f" of DBL_MAX is 317 bytes; longer output (absurd precision) is cut */
 
                   *cheat = '%';
                   i = 1;
@@ -1322,7 +1322,8 @@ char* string_print_formatted (char *format_str, int argc, svalue_t * argv) {
                   if (pres)
                     {
                       cheat[i++] = '.';
-                      sprintf (cheat + i, "%d", pres);
+                      /* more digits than temp[] holds cannot be shown anyway; libc would build all of them first */
+                      snprintf (cheat + i, sizeof (cheat) - i - 2, "%d", pres < (int)sizeof (temp) ? pres : (int)sizeof (temp) - 1);
                       i += (int)strlen (cheat + i);
                     }
                   switch (finfo & INFO_T)
@@ -1359,10 +1360,10 @@ char* string_print_formatted (char *format_str, int argc, svalue_t * argv) {
 
                   if (carg->type == T_REAL)
                     {
-                      sprintf (temp, cheat, carg->u.real);
+                      snprintf (temp, sizeof (temp), cheat, carg->u.real);
                     }
                   else
-                    sprintf (temp, cheat, carg->u.number);
+                    snprintf (temp, sizeof (temp), cheat, carg->u.number);
                   {
                     int tmpl = (int)strlen (temp);
 
